@@ -46,8 +46,18 @@ ASSUMPTIONS = [
     "an ack carries nothing that ties it to one request beyond the five echoed bytes: one that arrives after the caller "
     "gave up (connection still open) stays queued and serves the next write with the same first five bytes; after the ack "
     "timeout the connection is closed and a late ack serves nothing (`hsfz_write_outcomes`, example below it)",
-    "the whole-execution write theorem covers continuations of gateway bytes and passing time (what can happen while the "
+    "the whole-execution write theorems cover continuations of gateway bytes and passing time (what can happen while the "
     "one client task is blocked); the end of the stream while blocked is C08's subject (`hsfz_eof_wakes_ack_wait`)",
+    "whole executions (Model/HsfzSys.lean): write / read / close before connect() have no object to be called on, close() "
+    "while the one client task is blocked in a call cannot be issued by it - both leave the model state alone and are "
+    "skipped on the implementation side; bytes / end of stream before connect() are what an accepted TCP connection may "
+    "deliver before the reader task runs (StreamReader buffer); feed after end-of-stream is not generated",
+    "the reader task's trace on the implementation side is recorded by wrappers around HSFZConnection._read_frame and "
+    "send_alive_msg (what _read_frame returned, that send_alive_msg was entered, IncompleteReadError)",
+    "frames of other address pairs and stale acks skipped by a read() that then ends by an exception (timeout, error word, "
+    "end of stream) are dropped by the code (local list) - modelled as the code does it, not part of the property "
+    "(the property protects frames skipped by the ack wait); `hsfz_foreign_preserved` / `hsfz_acks_used_once` are therefore "
+    "not stated as whole-execution theorems (the ack side is covered by `hsfz_write_outcomes_sys`: first matching ack decides)",
 ]
 
 SRC, DST = 0xF4, 0x10
@@ -141,11 +151,33 @@ def lower(plan):
             ops.append(["adv", st[1]])
         elif k == "E":
             ops.append(["eof"])
+        elif k == "C":
+            ops.append(["connect"])
+        elif k == "X":
+            ops.append(["close"])
+    if plan.get("sys"):
+        # bytes fed before connect() reach the reader task when it starts: their frames arrive with the connect event
+        ci = next((i for i, op in enumerate(ops) if op[0] == "connect"), None)
+        arrivals = [((ci if oi < ci else oi), l, f) for oi, l, f in arrivals] if ci is not None else []
     return ops, arrivals
 
 
 def model_lines(plan, ops):
     c = plan["cfg"]
+    if plan.get("sys"):
+        lines = [f"sreset {c['src']} {c['dst']} {'none' if c.get('nouriack') else c['ack']} {c['yields']}"]
+        for op in ops:
+            if op[0] == "feed":
+                lines.append("sfeed " + (op[1] or "-"))
+            elif op[0] == "write":
+                lines.append(f"swrite {op[1] or '-'} {'none' if op[2] is None else op[2]}")
+            elif op[0] == "read":
+                lines.append(f"sread {'none' if op[1] is None else op[1]}")
+            elif op[0] == "adv":
+                lines.append(f"sadv {op[1]}")
+            else:
+                lines.append("s" + op[0])
+        return lines
     lines = [f"reset {c['src']} {c['dst']} {c['ack']} {c['yields']}"]
     for op in ops:
         if op[0] == "feed":
@@ -281,10 +313,105 @@ async def _impl(plan, ops):
     return reports
 
 
+def _show_wire(fr3):
+    hdr, rh, d = fr3
+    if rh is None:
+        return f"s{hdr.CWord}:{(d or b'').hex() or '-'}"
+    return f"f{hdr.CWord}:{rh.src_addr:02x}{rh.dst_addr:02x}:{d.hex() or '-'}"
+
+
+async def _impl_sys(plan, ops):
+    """whole executions: the connection is created by a `connect` event (bytes / end of stream may come first), the client
+    may call close(), and the reader task's own trace is recorded (what `_read_frame` returned, `send_alive_msg` calls, its end
+    by end-of-stream) by wrappers around the two methods"""
+    from gallia.transports.base import TargetURI
+    from gallia.transports.hsfz import HSFZConnection, HSFZStatus, HSFZTransport
+
+    c = plan["cfg"]
+    loop = asyncio.get_event_loop()
+    reader = asyncio.StreamReader()
+    writer = Writer(bool(c["yields"]))
+    trace = []
+    orig_rf, orig_alive = HSFZConnection._read_frame, HSFZConnection.send_alive_msg
+
+    async def rf(self):
+        try:
+            f = await orig_rf(self)
+        except asyncio.IncompleteReadError:
+            trace.append("ended")
+            raise
+        trace.append(_show_wire(f))
+        return f
+
+    async def alive(self):
+        trace.append("reply")
+        return await orig_alive(self)
+
+    async def oc(host, port, **kw):
+        return reader, writer
+
+    st = {"tr": None}
+    done = []
+    pending = [None, None]
+    reports = []
+
+    def report():
+        tr = st["tr"]
+        conn = tr._conn if tr is not None else None
+        t, kind = pending
+        cl = "idle" if t is None or t.done() else ("ack" if kind == "write" else "read")
+        q = (";".join(_show_item(x) for x in conn._read_queue._queue if x is not None) or "-") if conn else "-"
+        o = ";".join(f"{_ms(ts)}:{b.hex() or '-'}" for ts, b in writer.chunks) or "-"
+        d = ";".join(f"{ts}:{r}" for ts, r in done) or "-"
+        pre = "-" if conn else (bytes(reader._buffer).hex() or "-")
+        return (f"conn={1 if conn else 0} pre={pre} tr={';'.join(trace) or '-'} "
+                f"c={1 if conn and conn._closed else 0} t={_ms(loop.time())} cl={cl} q={q} out={o} done={d}")
+
+    def start(coro, kind):
+        t = asyncio.ensure_future(coro)
+        t.add_done_callback(lambda f: done.append((_ms(loop.time()), _classify(f, kind, HSFZStatus))))
+        pending[0], pending[1] = t, kind
+
+    with mock.patch.object(HSFZConnection, "_read_frame", rf), mock.patch.object(HSFZConnection, "send_alive_msg", alive):
+        for op in ops:
+            tr = st["tr"]
+            busy = pending[0] is not None and not pending[0].done()
+            if op[0] == "feed":
+                reader.feed_data(bytes.fromhex(op[1]))
+            elif op[0] == "eof":
+                reader.feed_eof()
+            elif op[0] == "adv":
+                await asyncio.sleep(op[1] / 1000)
+            elif op[0] == "connect":
+                if tr is None:
+                    q = f"src_addr={c['src']:#x}&dst_addr={c['dst']:#x}" + ("" if c.get("nouriack") else f"&ack_timeout={c['ack']}")
+                    with mock.patch("asyncio.open_connection", oc):
+                        st["tr"] = await HSFZTransport.connect(TargetURI(f"hsfz://gw:6801?{q}"))
+            elif tr is None:
+                pass  # no object to call
+            elif op[0] == "close":
+                if not busy:  # the one client task is blocked in its call otherwise
+                    await tr.close()
+            elif busy:
+                done.append((_ms(loop.time()), "busy"))
+            elif op[0] == "write":
+                start(tr.write(bytes.fromhex(op[1]), timeout=None if op[2] is None else op[2] / 1000), "write")
+            elif op[0] == "read":
+                start(tr.read(timeout=None if op[1] is None else op[1] / 1000), "read")
+            await _settle(loop)
+            reports.append(report())
+        if pending[0] is not None and not pending[0].done():
+            pending[0].cancel()
+        if st["tr"] is not None and not st["tr"]._conn._read_task.done():
+            st["tr"]._conn._read_task.cancel()
+            await asyncio.sleep(0)
+    return reports
+
+
 def run_impl(plan):
     ops, _ = lower(plan)
     try:
-        r, _vt = vrun(_impl(plan, ops))
+        r, _vt = vrun((_impl_sys if plan.get("sys") else _impl)(plan, ops))
         return r
     except Stall:
         return ["stall"]
@@ -351,6 +478,10 @@ def spec_check(plan, ops, arrivals, reports):
     closed_before = [False] + [o["c"] == "1" for o in obs[:-1]]
     closed_after = [o["c"] == "1" for o in obs]
     eof_at = next((i for i, op in enumerate(ops) if op[0] == "eof"), None)
+    if plan.get("sys") and eof_at is not None:
+        ci = next((i for i, op in enumerate(ops) if op[0] == "connect"), None)
+        if ci is not None and eof_at < ci:
+            eof_at = ci + 0.5  # the reader task meets the end of the stream when it starts, behind the bytes received before
     fr_info = []
     for oi, label, f in arrivals:
         p = parse_frame(f)
@@ -478,6 +609,8 @@ def spec_check(plan, ops, arrivals, reports):
         rt = sorted(t for t, _ in replies)
         if any(t not in rt for t in mt):
             viol.append(("alive-check-answered-late", f"alive checks arrived at {mt} ms, replies written at {rt} ms"))
+    if plan.get("sys"):
+        viol += spec_check_sys(plan, ops, fr_info, obs, results, client_ops, t_before, closed_before, eof_at)
     # S4: an error word result closes the connection; later operations fail
     for i, op in client_ops:
         if i in results and results[i][1].startswith("errword"):
@@ -487,6 +620,246 @@ def spec_check(plan, ops, arrivals, reports):
             if any(not (x in ("badfd", "connreset", "busy")) for x in later):
                 viol.append(("connection-usable-after-error-word", f"results after the error: {later}"))
     return viol
+
+
+def spec_check_sys(plan, ops, fr_info, obs, results, client_ops, t_before, closed_before, eof_at):
+    """clauses on whole executions, evaluated on the implementation's own reports: the reader task's trace against the byte
+    stream (short frames, alive checks), calls on a closed connection"""
+    viol = []
+    last = obs[-1]
+    tr = [] if last.get("tr", "-") == "-" else last["tr"].split(";")
+    rx = [e for e in tr if e not in ("reply", "ended")]
+
+    def show(f):
+        if f["addr"] is None:
+            return f"s{f['cw']}:{f['data'].hex() or '-'}"
+        return f"f{f['cw']}:{f['addr'][0]:02x}{f['addr'][1]:02x}:{f['data'].hex() or '-'}"
+    sent = [show(f) for f in fr_info]
+    # S6: the reader task cuts the stream into exactly the frames that were sent, in order - a frame with Len < 2 (no
+    # address header) is consumed completely and the frames behind it are cut as without it; while the connection is
+    # open and the stream alive every frame received has been handled
+    if rx != sent[:len(rx)]:
+        j = next(k for k in range(len(rx)) if k >= len(sent) or rx[k] != sent[k])
+        viol.append(("stream-desynchronised", f"frame #{j} handled by the reader task is {rx[j]}, the gateway sent "
+                                             f"{sent[j] if j < len(sent) else 'nothing more'}"))
+    else:
+        # frames that had arrived at an event after which the connection was open must have been handled
+        live = [f for f in fr_info if obs[f["op"]]["c"] == "0" and (eof_at is None or f["op"] < eof_at)]
+        need = max((fr_info.index(f) + 1 for f in live), default=0)
+        if len(rx) < need:
+            viol.append(("frame-not-handled", f"{need} frames had arrived on an open connection, the reader task handled {len(rx)}"))
+    # S7: every alive check in the reader's trace is followed by its reply before the next frame
+    for k, e in enumerate(tr):
+        if e.startswith(("f18:", "s18:")) and (k + 1 >= len(tr) or tr[k + 1] != "reply"):
+            # (a reader task cancelled by close() right at this frame cannot reply any more)
+            if last["c"] == "0":
+                viol.append(("alive-check-not-answered", f"alive check {e} handled by the reader task without a reply"))
+                break
+    # S8: a call on a closed connection fails at once with a connection error and writes nothing
+    for i, op in client_ops:
+        if i in results and closed_before[i]:
+            t, r = results[i]
+            if r not in ("badfd", "connreset", "busy") or t != t_before[i]:
+                viol.append(("closed-connection-accepts-call", f"{op[0]} issued at op {i} ({t_before[i]} ms) on a closed connection ended "
+                                                               f"{r} at {t} ms"))
+                break
+    return viol
+
+
+# ------------------------------------------------------------------------------------------------------
+# whole executions for Model/HsfzSys.lean
+
+
+def sys_fix_ties(plan):
+    """no timer may expire at exactly the instant bytes / the end of the stream arrive: delay such an arrival by 1 ms"""
+    T = plan["cfg"]["ack"]
+    for _ in range(8):
+        now, dl, bad = 0, set(), None
+        for si, st in enumerate(plan["steps"]):
+            if st[0] == "A":
+                now += st[1]
+            elif st[0] == "W":
+                dl.add(now + T)
+                if st[2] is not None:
+                    dl.add(now + st[2])
+            elif st[0] == "R" and st[1] is not None:
+                dl.add(now + st[1])
+            elif st[0] in ("F", "E") and now in dl:
+                bad = si
+                break
+        if bad is None:
+            return plan
+        plan["steps"].insert(bad, ["A", 1])
+    return plan
+
+
+CALLS = ["W", "Wt", "R", "X"]
+
+
+def sys_program(calls, slots, req, ack, yields, variant):
+    """a client program (2-4 calls out of write / write with a short caller timeout / read / close) with the frames of
+    `slots[k]` arriving before call k has been issued (k = 0: before the first call; variant 1: even before connect())
+    resp. while call k-1 is pending (7 ms after it started); `slots[len(calls)]`: after the last call has ended"""
+    T = ack
+    c = cfg(ack, yields)
+    if variant == 2:
+        c["nouriack"] = 1  # (only generated with ack == 1000: the URI carries no ack_timeout)
+    steps = []
+
+    def F(k):
+        return [["F", frames_of(slots[k], req), []]] if slots[k] else []
+    if variant == 1:
+        steps += F(0) + [["C"], ["A", 3]]
+    else:
+        steps += [["C"], ["A", 2]] + F(0) + [["A", 3]]
+    for k, call in enumerate(calls):
+        if call == "W":
+            steps += [["W", req.hex(), None], ["A", 7]] + F(k + 1) + [["A", T + 20]]
+        elif call == "Wt":
+            steps += [["W", req.hex(), T // 2 + 1], ["A", 7]] + F(k + 1) + [["A", T + 20]]
+        elif call == "R":
+            steps += [["R", 40], ["A", 7]] + F(k + 1) + [["A", 50]]
+        else:
+            steps += [["X"], ["A", 7]] + F(k + 1) + [["A", 5]]
+    steps += reads(2)
+    labels = [l for sl in slots for l in sl]
+    return {"sys": 1, "cfg": c, "pos": "sys-program:" + "".join(x[0] if x != "Wt" else "w" for x in calls), "labels": labels, "steps": steps}
+
+
+def gen_sys_plans(ctx):
+    rng = ctx.rng
+    plans = []
+    cnt = itertools.count()
+
+    def rot():
+        i = next(cnt)
+        return ACKS[i % 3], (i // 3) % 2, (REQ_SHORT if (i // 6) % 2 == 0 else REQ_LONG), (i // 12) % 3
+
+    def add(label, calls, slots):
+        ack, y, req, var = rot()
+        if var == 2:
+            ack = 1000
+        if not any("alive" in sl for sl in slots):
+            y = 0
+        plans.append((label, sys_program(calls, slots, req, ack, y, var)))
+
+    def placements(labels, nslots):
+        for asg in itertools.combinations_with_replacement(range(nslots), len(labels)):
+            slots = [[] for _ in range(nslots)]
+            for l, k in zip(labels, asg):
+                slots[k].append(l)
+            yield slots
+
+    # (S1) client programs x frame sequences x placements
+    NC1 = _pk(ctx, 3, 4, 3)   # programs up to this length with <= 1 frame
+    NC2 = _pk(ctx, 2, 3, 2)   # programs up to this length with 2 frames
+    n1 = 0
+    for n in range(2, NC1 + 1):
+        for calls in itertools.product(CALLS, repeat=n):
+            for labels in [()] + [(l,) for l in CORE]:
+                for slots in placements(labels, n + 1):
+                    n1 += 1
+                    add("sys-programs-exhaustive", calls, slots)
+    for n in range(2, NC2 + 1):
+        for calls in itertools.product(CALLS, repeat=n):
+            for labels in itertools.product(CORE, repeat=2):
+                for slots in placements(labels, n + 1):
+                    n1 += 1
+                    add("sys-programs-exhaustive", calls, slots)
+    ctx.exhaustive_parts.append(f"whole executions (connect .. close): all client programs of 2..{NC1} calls over {{write, write with a caller "
+                                f"timeout shorter than the ack timeout, read, close}} x every frame over the core alphabet in every phase "
+                                f"(before the first call / before connect(), while call k is pending, after the last call), and programs of "
+                                f"2..{NC2} calls x all 2-frame sequences x every non-decreasing placement ({n1} executions; ack timeout from "
+                                f"the URI {ACKS} ms or absent)")
+    # (S2) error / status control words (with and without address header, short) at every phase of every 2-3 call program
+    n2 = 0
+    for n in (2, 3):
+        for calls in itertools.product(CALLS, repeat=n):
+            for l in ("e41", "eFF", "e42s", "st10", "st13", "u77", "u0", "s10", "s21"):
+                for slots in placements((l,), n + 1):
+                    n2 += 1
+                    add("sys-error-words-every-phase", calls, slots)
+    ctx.exhaustive_parts.append(f"control words other than data / ack / alive (and short data / ack frames) at every phase of every client "
+                                f"program of 2-3 calls ({n2} executions)")
+    # (S3) frames, then the end of the stream (before / after connect()), then calls
+    n3 = 0
+    for calls in itertools.product(CALLS, repeat=2):
+        for n in range(0, 3):
+            for labels in itertools.product(CORE, repeat=n):
+                for early in (0, 1):
+                    ack, y, req, _ = rot()
+                    n3 += 1
+                    F = [["F", frames_of(labels, req), []]] if labels else []
+                    steps = (F + [["E"], ["C"], ["A", 3]]) if early else ([["C"], ["A", 2]] + F + [["A", 1], ["E"], ["A", 3]])
+                    prog = sys_program(calls, [[] for _ in range(3)], req, ack, y if "alive" in labels else 0, 0)
+                    steps += prog["steps"][2:]
+                    plans.append(("sys-frames-eof-calls", {"sys": 1, "cfg": cfg(ack, y if "alive" in labels else 0),
+                                                           "pos": "sys-eof:" + prog["pos"].split(":")[1], "labels": list(labels), "steps": steps}))
+    ctx.exhaustive_parts.append(f"frames (all sequences <= 2 over the core alphabet), then end of stream (before / after connect()), then every "
+                                f"2-call program ({n3} executions)")
+    # (S4) an ack just before / after the deadline of a write (ack timeout or caller's), further writes, close in between
+    for ack in ACKS:
+        for caller in (None, ack // 2 + 1):
+            dl = ack if caller is None else caller
+            for delta in (-3, 5):
+                for req2 in (REQ_SHORT, REQ_LONG):
+                    for mid in ((), ("X",), ("R",)):
+                        for y in (0, 1):
+                            a1 = frames_of(["alive", "ack"] if y else ["dO", "ack"], REQ_SHORT)
+                            a2 = frames_of(["ack", "dT"], req2)
+                            steps = [["C"], ["W", REQ_SHORT.hex(), caller], ["A", dl + delta], ["F", a1, []], ["A", 9]]
+                            for m in mid:
+                                steps += [["X"], ["A", 3]] if m == "X" else [["R", 40], ["A", 50]]
+                            steps += [["W", req2.hex(), None], ["A", 7], ["F", a2, []], ["A", ack + 20],
+                                      ["W", req2.hex(), None], ["A", ack + 20]] + reads(2)
+                            plans.append(("sys-late-ack-further-writes", {"sys": 1, "cfg": cfg(ack, y), "pos": "sys-late-ack",
+                                                                          "labels": ["ack", "ack", "dT"], "steps": steps}))
+    # (S5) bursts behind which an alive check waits, in every client phase, then close
+    for n in (40, 70):
+        labels = ["dT" if i in (1, n // 2, n - 1) else "dO" for i in range(n)]
+        for y in (0, 1):
+            for phase in ("idle", "ack", "read", "pre"):
+                fs = frames_of(labels + ["alive"], REQ_SHORT)
+                head = {"idle": [["C"]], "ack": [["C"], ["W", REQ_SHORT.hex(), None], ["A", 7]], "read": [["C"], ["R", None], ["A", 7]],
+                        "pre": []}[phase]
+                tail = [["C"]] if phase == "pre" else []
+                steps = head + [["F", fs, [len(fs) * 3]]] + tail + [["A", 1100]] + reads(4) + [["X"], ["R", 40], ["A", 50]]
+                plans.append(("sys-burst", {"sys": 1, "cfg": cfg(1000, y), "pos": "sys-burst:" + phase, "labels": labels + ["alive"], "steps": steps}))
+    # (S6) seeded executions: random event lists over the full alphabet, multi-splits
+    for _ in range(_pk(ctx, 1200, 12000, 5000)):
+        ack = rng.choice(ACKS)
+        req = rng.choice([REQ_LONG, REQ_SHORT, bytes.fromhex("1003")])
+        y = rng.randrange(2)
+        weights = [6 if l in ("ack", "dT") else 3 if l in CORE else 1 for l in FULL]
+        steps = []
+        if rng.random() < 0.3:
+            steps.append(["F", frames_of(rng.choices(FULL, weights=weights, k=rng.randint(1, 3)), req), []])
+        if rng.random() < 0.05:
+            steps.append(["E"])
+        steps.append(["C"])
+        eof = steps[0][0] == "E" or (len(steps) > 1 and steps[-2][0] == "E")
+        for _ in range(rng.randint(3, 9)):
+            r = rng.random()
+            if r < 0.35 and not eof:
+                fs = frames_of(rng.choices(FULL, weights=weights, k=rng.randint(1, 4)), req)
+                total = sum(len(bytes.fromhex(h)) for _, h in fs)
+                cuts = sorted(rng.sample(range(1, total), min(total - 1, rng.choice([0, 0, 1, 2, 4]))))
+                steps.append(["F", fs, cuts, rng.choice([0, 0, 2])])
+            elif r < 0.5:
+                steps.append(["A", rng.choice([1, 4, 9, 30, ack + 11])])
+            elif r < 0.7:
+                steps += [["W", req.hex(), rng.choice([None, None, ack // 2 + 1, ack + 77])], ["A", rng.choice([2, 7, ack + 20])]]
+            elif r < 0.9:
+                steps += [["R", rng.choice([20, 60])], ["A", rng.choice([3, 70])]]
+            elif r < 0.96:
+                steps.append(["X"])
+            elif not eof:
+                steps.append(["E"])
+                eof = True
+        steps += [["A", ack + 20]] + reads(2)
+        labels = [l for st in steps if st[0] == "F" for l, _ in st[1]]
+        plans.append(("sys-seeded", {"sys": 1, "cfg": cfg(ack, y), "pos": "sys-seeded", "labels": labels, "steps": steps}))
+    return [(l, sys_fix_ties(p)) for l, p in plans]
 
 
 # ------------------------------------------------------------------------------------------------------
@@ -877,6 +1250,10 @@ def shape(plan):
             out.append("R")
         elif st[0] == "E":
             out.append("E")
+        elif st[0] == "C":
+            out.append("C")
+        elif st[0] == "X":
+            out.append("X")
     return "".join(out)
 
 
@@ -940,7 +1317,7 @@ def run(ctx):
                 "least one gateway frame or lets a timer expire; every case is run on the real HSFZTransport and on the model and "
                 "all per-operation reports are compared")
     plans = [("corpus", p) for p in corpus()] + bursts(ctx) + gen_plans(ctx)
-    plans = [(l, fix_ties(p)) for l, p in plans]
+    plans = [(l, fix_ties(p)) for l, p in plans] + gen_sys_plans(ctx)
     nproc = max(1, min(8, (os.cpu_count() or 2) // 2))
     impl = run_impl_many([p for _, p in plans], nproc)
     batch = []
@@ -1068,6 +1445,16 @@ MANIFEST = {
                    "instant, else exactly at the deadline (caller's TimeoutError, or 'no ack' with the connection closed for good), "
                    "else it is still blocked holding everything seen -, alive checks are answered by the reader task in the "
                    "step that parses them, an error control word closes the connection, skipped frames stay queued in arrival order. "
+                   "Whole executions from before connect() to after close() (`Model/HsfzSys.lean`: events feed / connect / write / read / "
+                   "close / eof / advance, reader-task trace, ack timeout from the URI; the connection inside moves only by the "
+                   "operations of Model/Hsfz.lean and by close() on an idle client, so its invariants lift): for EVERY event list and "
+                   "schedule `hsfz_reads_account` (delivered ++ still on their way = the stream's ECU->tester payloads in order), "
+                   "`hsfz_write_outcomes_sys` (first deciding item among queued + arriving before the deadline, else failure exactly at "
+                   "the ack deadline of the URI / the caller's earlier timeout, any events afterwards), `hsfz_short_frames_consumed` "
+                   "(frames handled by the reader task ++ complete in the buffer = the stream's frames, all handled on an open "
+                   "connection), `hsfz_alive_always_answered_partial` (every alive check in the reader's trace followed by its reply; "
+                   "reply bytes / instant / independence of the client phase per step), `hsfz_closed_never_blocks`, "
+                   "`hsfz_error_word_closes_partial` (closed is final, later calls fail at once). "
                    "Tied to the code by tables regenerated from hsfz.py (enum, struct formats, literals, match arms) with agreement "
                    "theorems, and by a differential run of the real HSFZTransport/HSFZConnection over in-memory streams under virtual "
                    "time: all frame sequences up to length 4 (quick) / 5 (thorough) over an 8-symbol gateway alphabet x 6 injection "
@@ -1075,12 +1462,23 @@ MANIFEST = {
                    "{0.1, 1.0, 2.5 s} x arrival before/after the deadline x caller timeouts, two writes one after the other with "
                    "all sequences up to length 2 in every placement into the 5 phases, acks around both kinds of deadline followed by "
                    "the next write, bursts of 33-80 unconsumed frames with alive checks behind them, frames then end of stream then "
-                   "reads, seeded longer sequences over a 27-symbol alphabet with multi-splits and free-form conversations; the property's clauses are also evaluated directly on the implementation's traces."),
-    "level_note": ("Partial: one client operation at a time (no concurrent read+write tasks); kernel TCP behaviour, real drain() "
+                   "reads, seeded longer sequences over a 27-symbol alphabet with multi-splits and free-form conversations; whole executions "
+                   "against the HsfzSys driver commands compared event by event (connected flag, bytes waiting for the reader task, "
+                   "reader trace, closed flag, clock, pending call, queue, bytes written with times, call results with times): all "
+                   "client programs of 2-3 (4 thorough) calls over {write, write with short caller timeout, read, close} x every core "
+                   "frame in every phase (also before connect()), 2-call programs x all 2-frame sequences x placements, 9 further "
+                   "control words / short frames at every phase, frames then EOF (before / after connect()) then calls, acks around "
+                   "both deadlines then further writes / close, bursts of 40-70 frames with an alive check in every client phase, "
+                   "seeded event lists; the property's clauses (incl. reader trace = stream frames, alive reply after every alive "
+                   "check, calls on a closed connection fail at once) are also evaluated directly on the implementation's traces."),
+    "level_note": ("Partial: `hsfz_acks_used_once` and `hsfz_foreign_preserved` are not proved as whole-execution theorems (a read that ends by "
+                   "an exception drops the foreign frames it skipped - code behaviour outside the property); the alive-check and "
+                   "error-word whole-execution theorems are `_partial` (trace level / closed-is-final; the byte-level and per-call links "
+                   "are per-step theorems). One client operation at a time (no concurrent read+write tasks); kernel TCP behaviour, real drain() "
                    "back-pressure and wall-clock latency are represented by feed_data chunking, two drain schedules and virtual time; "
                    "'immediately' for the alive check means 'in the reader-task step that parsed the frame, without waiting for the "
                    "client or a lock'. Trusted: Lean kernel (propext, Quot.sound, Classical.choice), asyncio Queue/StreamReader/wait_for "
                    "contracts, struct, the harness."),
-    "technique": "Lean 4 proof (generic framing lemma, induction over the settle schedule) + regenerated tables + differential correspondence under virtual time",
+    "technique": "Lean 4 proof (generic framing lemma, induction over the settle schedule, invariants lifted to the connect..close system) + regenerated tables + differential correspondence under virtual time",
     "design_ref": "DESIGN.md section 7, C07",
 }
